@@ -664,11 +664,18 @@ func (fe *FnEnc) cutPointsAt(st *State, key string, ord int, pos token.Pos, afte
 			if callText == "" {
 				callText = fe.callSrc(pos)
 			}
-			if !strings.Contains(callText, as.Text) {
+			anchor := ""
+			for _, v := range fe.anchorVariants(as.Text) {
+				if strings.Contains(callText, v) {
+					anchor = v
+					break
+				}
+			}
+			if anchor == "" {
 				continue
 			}
 			// "text"#k: only the k-th call site (in source order) whose text contains the text
-			if as.K > 0 && fe.textOrdinal(pos, as.Text) != as.K {
+			if as.K > 0 && fe.textOrdinalAny(pos, fe.anchorVariants(as.Text)) != as.K {
 				continue
 			}
 		} else if as.Callee != key || as.K != ord {
